@@ -583,6 +583,44 @@ func run(c *hc.Ctx) error {
 		add(line, got)
 	}
 
+	// ---- 2b. RSAFingerprint: low 64 bits of SHA1(TL-bytes(n) ‖ TL-bytes(e)) against an independent reference
+	tlBytes := func(b []byte) []byte {
+		var out []byte
+		if len(b) <= 253 {
+			out = append([]byte{byte(len(b))}, b...)
+		} else {
+			out = append([]byte{254, byte(len(b)), byte(len(b) >> 8), byte(len(b) >> 16)}, b...)
+		}
+		for len(out)%4 != 0 {
+			out = append(out, 0)
+		}
+		return out
+	}
+	for i := 0; i < c.N(60, 2000); i++ {
+		var n *big.Int
+		if i < len(keys) {
+			n = keys[i].priv.N
+		} else {
+			nb := r.Bytes(hc.Pick(r, 128, 256, 256, 253, 254, 255, 257, 1, r.Range(1, 300)))
+			nb[0] |= byte(r.Intn(2)) << 7
+			n = new(big.Int).SetBytes(nb)
+		}
+		e := hc.Pick(r, 65537, 65537, 3, 17, 257, 1<<24+1, r.Intn(1<<30)+1)
+		got := uint64(crypto.RSAFingerprint(&rsa.PublicKey{N: n, E: e}))
+		hs := sha1.Sum(append(tlBytes(n.Bytes()), tlBytes(big.NewInt(int64(e)).Bytes())...))
+		var want uint64
+		for k := 0; k < 8; k++ {
+			want |= uint64(hs[12+k]) << (8 * uint(k))
+		}
+		line := fmt.Sprintf("fp %s %s", hexN(n), hexN(big.NewInt(int64(e))))
+		c.Eval(line, true)
+		c.Count(fmt.Sprintf("fingerprint.n-bytes<=253:%v", len(n.Bytes()) <= 253))
+		if got != want {
+			c.Fail("rsa-fingerprint-not-spec", line, fmt.Sprintf("RSAFingerprint = %d, specification gives %d", got, want))
+		}
+		add(line, fmt.Sprint(got))
+	}
+
 	// ---- 3. the repository's known-answer vector (production key #1, all-zero random source)
 	{
 		pk, err := crypto.ParseRSAPublicKeys([]byte("-----BEGIN RSA PUBLIC KEY-----\n" +
